@@ -31,6 +31,9 @@ def site_key(o, fn, vl=None, pv=None):
             if inner[2] == "DuplicateMapKey":
                 return "err:DuplicateMapKey"   # contains()+insert() and `!insert()` are the same rule (C12 checks the gate)
             return "err:%s%s" % (inner[2], guard_summary(o, fn, pv))
+        if inner[0] == "field" and inner[2] == "0" and inner[1][0] == "variant" and inner[1][2] == "Err" and is_call(inner[1][1]):
+            # the Err payload of a call handed on unchanged through a combinator chain (`o.map(f).transpose()?`): a propagation
+            return "propagate:%s" % inner[1][1][1]
         return "err:<%s>" % show(inner)[:40]
     if k == "call":
         t = o["term"]
@@ -133,6 +136,9 @@ def guard_summary(o, fn=None, pv=None):
     if last[0] == "discr" and is_call(last[1]) and last[1][1] in ("core::slice::<impl [T]>::first", "core::slice::<impl [T]>::last",
                                                                     "alloc::vec::Vec::<T, A>::first", "alloc::vec::Vec::<T, A>::pop"):
         return "@is_empty"      # `match v.first() { None => .. }` is the emptiness test
+    if last[0] == "discr" and is_call(last[1]) and last[1][1].startswith(("core::", "alloc::")) and names:
+        # `let Some(d) = depth.checked_sub(1) else { return Err(..) }` is `depth.checked_sub(1).ok_or(..)?`
+        return "@" + "+".join(names[:3])
     if last[0] == "discr":
         return "@variant"
     return "@" + "+".join(names[:3]) if names else "@cond"
